@@ -126,8 +126,8 @@ case "${1:-}" in
       # the tree has process-wide atomics: put them behind shuttle's scheduler and explore callers' interleavings
       rep="$SIM/target/run/$prop-$tier-conc.json"; mkdir -p "$SIM/target/run"; rm -f "$rep"
       if conc_build; then
-        iters=3000; [ "$tier" = thorough ] && iters=60000
-        "$CONCBIN" conc --prop "$prop" --root "$ROOT" --iterations "$iters" --out "$rep" >/dev/null 2>"$SIM/target/conc-run.log"
+        iters=3000; secs=40; [ "$tier" = thorough ] && { iters=60000; secs=600; }
+        "$CONCBIN" conc --prop "$prop" --root "$ROOT" --iterations "$iters" --max-secs "$secs" --out "$rep" >/dev/null 2>"$SIM/target/conc-run.log"
         [ -f "$rep" ] && concargs=(--conc-report "$rep")
       else
         echo "NOTE: concurrent phase skipped: the shadow build with shuttle atomics failed (log: $SIM/target/conc-build.log)"
